@@ -72,12 +72,23 @@ func zzvNewServerCfg(base string, ucfg *telemetry.UploadConfig) *zzvServer {
 }
 
 func (s *zzvServer) do(method, path string, body []byte) (status int, panicked any) {
+	return s.doLen(method, path, body, true)
+}
+
+// doLen sends the request with a declared Content-Length or, like a chunked
+// upload, without one.
+func (s *zzvServer) doLen(method, path string, body []byte, declared bool) (status int, panicked any) {
 	defer func() {
 		if r := recover(); r != nil {
 			panicked = r
 		}
 	}()
 	req := httptest.NewRequest("POST", "http://telemetry.test"+path, bytes.NewReader(body))
+	if !declared {
+		req.Body = io.NopCloser(bytes.NewReader(body))
+		req.ContentLength = -1
+		req.TransferEncoding = []string{"chunked"}
+	}
 	req.Method = method
 	rec := httptest.NewRecorder()
 	// The Recover middleware prints stack traces to stdout; silence it.
@@ -304,7 +315,13 @@ func TestVerifC12(t *testing.T) {
 	)
 
 	uploaded := filepath.Join(srv.cfg.LocalStorage, "uploaded")
-	for i, rq := range reqs {
+	// Every request is sent twice: with a declared length and chunked.
+	for i := 0; i < 2*len(reqs); i++ {
+		rq := reqs[i/2]
+		declared := i%2 == 0
+		if !declared {
+			rq.desc += " (no Content-Length)"
+		}
 		if !p.Mine(i) {
 			continue
 		}
@@ -312,7 +329,7 @@ func TestVerifC12(t *testing.T) {
 		os.RemoveAll(srv.cfg.LocalStorage)
 		os.MkdirAll(uploaded, 0o777)
 		before := ref.Snapshot(srv.root)
-		status, pan := srv.do(rq.method, rq.path, rq.body)
+		status, pan := srv.doLen(rq.method, rq.path, rq.body, declared)
 		after := ref.Snapshot(srv.root)
 		res.Evaluations++
 		diff := before.Diff(after)
